@@ -636,3 +636,99 @@ Proof.
   exists demo_texts, (VAddr AKT (repeat x11 20) (Some [])), (VAddr AKT (repeat x11 20) None).
   split; [exact demo_texts_ok|]. split; [discriminate|]. vm_compute. repeat split; reflexivity.
 Qed.
+
+(* ------------------------------------------------------------------ back to raw values
+   The correspondence run evaluates the collection model on raw [val]s with [py_eq T]/[py_lt T];
+   the order laws hold on the subtype [typed t].  Erasure (Collections_proofs, Section Erase)
+   transfers the results to every history whose keys are well-typed. *)
+Section Raw.
+  Variable T : texts.
+  Hypothesis TOK : texts_ok T.
+  Variable t : cty.
+
+  Definition typed_val (v : val) : Prop := has_type t v = true.
+  Definition raw_lt (a b : val) : Prop := cmp t a b = Lt.
+
+  Lemma lift_vals l : Forall typed_val l -> exists l' : list (typed t), map (tv t) l' = l.
+  Proof.
+    induction 1 as [|v l Hv _ [l' IH]]; [exists []; reflexivity|].
+    exists (exist _ v Hv :: l'). simpl. rewrite IH. reflexivity.
+  Qed.
+
+  Definition set_op_typed (o : set_op val) : Prop :=
+    match o with SUpdate x _ => typed_val x | SLiteral l => Forall typed_val l end.
+
+  Lemma lift_set_ops ops : Forall set_op_typed ops ->
+    exists ops' : list (set_op (typed t)), map (erase_set_op val (typed t) (tv t)) ops' = ops.
+  Proof.
+    induction 1 as [|o ops Ho _ [ops' IH]]; [exists []; reflexivity|].
+    destruct o as [x b|l]; simpl in Ho.
+    - exists (SUpdate (exist _ x Ho) b :: ops'). simpl. rewrite IH. reflexivity.
+    - destruct (lift_vals l Ho) as [l' Hl]. exists (SLiteral l' :: ops'). simpl. rewrite IH, Hl. reflexivity.
+  Qed.
+
+  Lemma raw_set_sorted ops : Forall set_op_typed ops ->
+    StronglySorted raw_lt (set_run (py_eq T) (py_lt T) ops) /\
+    Forall typed_val (set_run (py_eq T) (py_lt T) ops).
+  Proof.
+    intro F. destruct (lift_set_ops ops F) as [ops' <-].
+    rewrite <- (erase_set_run val (typed t) (tv t) (py_eq T) (py_lt T) ops'). split.
+    - apply StronglySorted_map with (R' := cmp_lt t); [intros a b H; exact H|].
+      exact (set_is_cmp_sorted T TOK t ops').
+    - apply Forall_forall. intros v Hv. apply in_map_iff in Hv. destruct Hv as [x [<- _]]. apply tv_typed.
+  Qed.
+
+  Definition map_op_typed {V} (o : map_op val V) : Prop :=
+    match o with
+    | MUpdate k _ => typed_val k
+    | MGetAndUpdate k _ => typed_val k
+    | MMap _ => True
+    | MLiteral l => Forall typed_val (keys l)
+    end.
+
+  Lemma lift_elts {V} (l : list (val * V)) : Forall typed_val (keys l) ->
+    exists l' : list (typed t * V), map (fun kv => (tv t (fst kv), snd kv)) l' = l.
+  Proof.
+    induction l as [|[k v] l IH]; simpl; intro F; [exists []; reflexivity|].
+    inversion F as [|? ? Hk Hl]; subst. destruct (IH Hl) as [l' E].
+    exists ((exist _ k Hk, v) :: l'). simpl. rewrite E. reflexivity.
+  Qed.
+
+  Lemma lift_map_ops {V} (ops : list (map_op val V)) : Forall map_op_typed ops ->
+    exists ops' : list (map_op (typed t) V), Forall2 (mop_rel val (typed t) V (tv t)) ops' ops.
+  Proof.
+    induction 1 as [|o ops Ho _ [ops' IH]]; [exists []; constructor|].
+    destruct o as [k vo|k vo|phi|l]; simpl in Ho.
+    - exists (MUpdate (exist _ k Ho) vo :: ops'). constructor; [|exact IH].
+      apply (MR_upd val (typed t) V (tv t) (exist _ k Ho) vo).
+    - exists (MGetAndUpdate (exist _ k Ho) vo :: ops'). constructor; [|exact IH].
+      apply (MR_gau val (typed t) V (tv t) (exist _ k Ho) vo).
+    - exists (MMap (fun k' v => phi (tv t k') v) :: ops'). constructor; [|exact IH]. apply MR_map.
+    - destruct (lift_elts l Ho) as [l' <-]. exists (MLiteral l' :: ops'). constructor; [|exact IH]. apply MR_lit.
+  Qed.
+
+  Lemma raw_map_sorted {V} (ops : list (map_op val V)) : Forall map_op_typed ops ->
+    StronglySorted raw_lt (keys (map_run (py_eq T) (py_lt T) ops)) /\
+    Forall typed_val (keys (map_run (py_eq T) (py_lt T) ops)).
+  Proof.
+    intro F. destruct (lift_map_ops ops F) as [ops' R].
+    rewrite <- (erase_map_run val (typed t) V (tv t) (py_eq T) (py_lt T) ops' ops R).
+    rewrite (erase_keys val (typed t) V (tv t)). split.
+    - apply StronglySorted_map with (R' := cmp_lt t); [intros a b H; exact H|].
+      exact (map_is_cmp_sorted T TOK t V ops').
+    - apply Forall_forall. intros v Hv. apply in_map_iff in Hv. destruct Hv as [x [<- _]]. apply tv_typed.
+  Qed.
+
+  (* literals on raw values *)
+  Lemma raw_literal l : Forall typed_val l ->
+    (check_constraints (py_eq T) (py_lt T) l = true <-> StronglySorted raw_lt l).
+  Proof.
+    intro F. destruct (lift_vals l F) as [l' <-].
+    rewrite <- (erase_check val (typed t) (tv t) (py_eq T) (py_lt T) l').
+    rewrite (literal_is_cmp T TOK t l'). split.
+    - apply StronglySorted_map. intros a b H; exact H.
+    - clear F. intro S. induction l' as [|x l' IH]; [constructor|]. simpl in S. inversion S as [|? ? S1 F1]; subst.
+      constructor; [apply IH, S1|].
+      rewrite Forall_forall in *. intros y Hy. apply F1. apply in_map, Hy.
+  Qed.
+End Raw.
